@@ -25,6 +25,11 @@ pub enum Act {
         ext: bool,
         #[serde(default)]
         silent: bool,
+        /// the allow list also names another stored credential, and the PRF inputs are given per
+        /// credential for that OTHER one only (no default input): whichever credential signs, only
+        /// its counter moves
+        #[serde(default)]
+        two: bool,
     },
     Register { counter: bool },
 }
@@ -122,14 +127,27 @@ where
     S: passkey_authenticator::CredentialStore<PasskeyItem = passkey_types::Passkey> + Send + Sync,
 {
     match act {
-        Act::Assert { cred, ext, silent } => {
+        Act::Assert { cred, ext, silent, two } => {
             let Some(target) = before.get(*cred).cloned() else {
                 *outcome = "assert:no-such-cred".into();
                 return;
             };
-            let exts = ext.then(|| get_assertion::ExtensionInputs { hmac_secret: None, prf: Some(AuthenticatorPrfInputs { eval: Some(AuthenticatorPrfValues { first: [7; 32], second: None }), eval_by_credential: None }) });
-            let req = ga_request(RP, Some(vec![target.id.clone()]), false, !*silent, !*silent, false, exts);
+            let other = before.iter().find(|r| r.id != target.id).cloned().filter(|_| *two);
+            let exts = match &other {
+                Some(o) => Some(get_assertion::ExtensionInputs { hmac_secret: None, prf: Some(AuthenticatorPrfInputs { eval: None, eval_by_credential: Some([(o.id.clone().into(), AuthenticatorPrfValues { first: [8; 32], second: None })].into_iter().collect()) }) }),
+                None => ext.then(|| get_assertion::ExtensionInputs { hmac_secret: None, prf: Some(AuthenticatorPrfInputs { eval: Some(AuthenticatorPrfValues { first: [7; 32], second: None }), eval_by_credential: None }) }),
+            };
+            let allow = match &other {
+                Some(o) => vec![target.id.clone(), o.id.clone()],
+                None => vec![target.id.clone()],
+            };
+            let req = ga_request(RP, Some(allow), false, !*silent, !*silent, false, exts);
             let r = par::catch(|| block_on(auth.get_assertion(req)));
+            // with two listed credentials the one that signed is the subject of the counter clauses
+            let target = match (&r, &other) {
+                (Ok(Ok(resp)), Some(o)) if resp.credential.as_ref().map(|d| d.id.to_vec()) == Some(o.id.clone()) => o.clone(),
+                _ => target,
+            };
             let after = store.recs_ordered();
             let stored_after = after.iter().find(|r| r.id == target.id).and_then(|r| r.counter);
             let updates = log.snapshot().iter().filter(|e| matches!(e, Event::Update { .. })).count();
@@ -250,10 +268,11 @@ impl Sys for C08 {
         let mut v = vec![];
         for cred in 0..snap.len().min(5) {
             for ext in [false, true] {
-                v.push(Act::Assert { cred, ext, silent: false });
+                v.push(Act::Assert { cred, ext, silent: false, two: false });
             }
-            v.push(Act::Assert { cred, ext: false, silent: true });
-            v.push(Act::Assert { cred, ext: true, silent: true });
+            v.push(Act::Assert { cred, ext: false, silent: true, two: false });
+            v.push(Act::Assert { cred, ext: true, silent: false, two: true });
+            v.push(Act::Assert { cred, ext: true, silent: true, two: false });
         }
         if snap.len() < 5 {
             v.push(Act::Register { counter: true });
